@@ -1,5 +1,5 @@
 #!/bin/sh
-# usage: tools/regress_refactors.sh   every behaviour-preserving refactoring of refactors/ against the checks of its area: all must stay silent
+# usage: tools/regress_refactors.sh   every behaviour-preserving refactoring of refactors/ (14) against the checks of its area: all must stay silent
 cd "$(dirname "$0")/.." || exit 2
 export VERIF_DIR="$PWD"
 run() { d=$1; shift; echo "== $d"; sh tools/try_refactor.sh "$PWD/refactors/$d" "$@"; }
@@ -11,3 +11,9 @@ run R10 C10 C04
 run R13 C13 C12
 run R17 C17 C05 C06 C10
 run R20 C20
+run R21 C08 C09 C10 C07 C02
+run R22 C16 C04
+run R23 C14 C13 C03
+run R24 C05 C06 C01 C02 C03 C14 C16
+run R25 C07 C19 C06 C11 C13 C01 C02
+run R26 C17 C18 C06 C05 C10 C02
